@@ -240,6 +240,15 @@ INJECT_BUDGET = {
 }
 # seeded random scenarios after the exhaustive ones: (count, longest prefix); and the deeper search
 # made only when a trace was rejected and no failing schedule is known yet
+# deterministic scheduler (every agent on its own thread, parked by hook H4 after each atomic
+# operation; any interleaving of the calls, not only nested ones): (prim, calls started, preemptions,
+# steps) per run
+INJECT_SCHED = {
+    "quick": {"mutex": [("mutex", 4, 2, 20)], "sem": [("sem", 3, 2, 16)], "rwlock": [("rwlock", 3, 1, 16)],
+              "once": [("once", 3, 2, 16)], "barrier": [("barrier", 4, 2, 20)]},
+    "thorough": {"mutex": [("mutex", 4, 3, 20)], "sem": [("sem", 4, 2, 20)], "rwlock": [("rwlock", 3, 3, 18)],
+                 "once": [("once", 4, 2, 20)], "barrier": [("barrier", 5, 3, 24)]},
+}
 INJECT_RANDOM = {"quick": (100000, 8), "thorough": (2000000, 10)}
 INJECT_SEARCH = (1500000, 10)
 
